@@ -290,6 +290,42 @@ def enumerate_cases(tier, seed):
     """the shipped deployment: the server chroots into the site, its document root is then '/' (needs root; a forked child
     does the real chroot)"""
     yield {"mode": "chrooted"}
+    # handler lists an administrator may write that leave some handlers out: what such a server serves as a plain file it
+    # announces as a plain file
+    yield {"mode": "other-handlers", "handlers": "[UMN.UMNDirHandler, html.HTMLFileTitleHandler, file.FileHandler]"}
+    yield {"mode": "other-handlers", "handlers": "[url.HTMLURLHandler, dir.DirHandler, file.FileHandler]"}
+    yield {"mode": "other-handlers", "handlers": "[url.HTMLURLHandler, UMN.UMNDirHandler, mbox.MBoxMessageHandler, mbox.MBoxFolderHandler, file.FileHandler]"}
+
+
+def _check_other_handlers(case, ctx):
+    spec = [["readme.txt", "f", "hello\n"], ["index.gophermap", "f", "iA menu for another server\n0Read me\treadme.txt\n"],
+            ["page.html", "f", "<html><head><title>A page</title></head></html>\n"], ["box.mbox", "f", sites.mbox_text(["one", "two"])],
+            ["arc.zip", "zip", {"members": [["m.txt", "f", "member\n", {}]]}], ["notes.txt.gz", "f", "not really compressed\n"],
+            ["run.sh", "f", "#!/bin/sh\necho hi\n", 0o755], ["doc.pyg", "f", "print('x')\n"], ["t.tal", "f", "<p>x</p>\n"],
+            ["sub/gophermap", "f", "iThis directory has a map\n0Inner\tinner.txt\n"], ["sub/inner.txt", "f", "inner\n"],
+            ["sub2/caf\xe9 \xff.txt", "f", "x\n"]]
+    d, root = world.build(spec)
+    try:
+        cfg = drive.make_config(root, "shipped", **{"handlers.dir.DirHandler::cachetime": "0",
+                                                    "handlers.HandlerMultiplexer::handlers": case["handlers"]})
+        fails = []
+        for form in ("gopher", "http", "gemini", "spartan", "gplus", "wap"):
+            reached, ff, nreq = crawl(cfg, form, False, ctx)
+            ctx.count("requests", nreq)
+            ctx.nontriv((case["handlers"], form))
+            if not ff and b"/readme.txt" not in reached:
+                ff.append(Fail("unreached:other-handlers", "%s crawl with the handler list %s never reaches /readme.txt" % (form, case["handlers"])))
+            fails += ff
+        ctx.label("other-handler-lists")
+        ctx.sample({"handlers": case["handlers"]}, cls="other-handlers")
+        seen, out = set(), []
+        for f in fails:
+            if f.sig not in seen:
+                seen.add(f.sig)
+                out.append(f)
+        return out
+    finally:
+        world.rmtree(d)
 
 
 def _check_chrooted(case, ctx):
@@ -369,6 +405,8 @@ def _check_chrooted(case, ctx):
 def check_case(case, ctx):
     if case.get("mode") == "chrooted":
         return _check_chrooted(case, ctx)
+    if case.get("mode") == "other-handlers":
+        return _check_other_handlers(case, ctx)
     full = case["full"]
     items = case["site"]
     spec = sites.to_spec(items)
